@@ -310,4 +310,7 @@ def run(model, R):
     R.floor('BOUNDS', 14)
     R.guard('BOUNDS', None, 'Concept.join/meet', binary, model, R)
     R.guard('BOUNDS', None, 'Lattice.join/meet', aggregate, model, R)
+    # both close their argument with the double derivation of the object family (C01's closures are a dependency)
+    from . import c01
+    R.guard('WIRING', None, '_pair_with closures', c01.closure_rules, model, R)
     return __doc__.strip()
